@@ -23,6 +23,20 @@ import (
 // store and return what they are sent (position/line/body are echoed; this is the "echo" assumption of
 // Model/Platforms.v, here it is the fake's behaviour).
 
+// Files of the pull / merge request besides the main one (old path, new path, diff): files WITHOUT a patch (pure rename,
+// binary, too large: GitHub omits "patch", GitLab sends an empty diff).  Set per scenario by c17Servers; listed before or
+// after the main file.
+var c17SrvExtra [][3]string
+var c17SrvExtraFirst bool
+
+func c17AllFiles(path, diff string) [][3]string {
+	main := [][3]string{{path, path, diff}}
+	if c17SrvExtraFirst {
+		return append(append([][3]string{}, c17SrvExtra...), main...)
+	}
+	return append(main, c17SrvExtra...)
+}
+
 // ---- fake GitLab ------------------------------------------------------------------------------------
 
 type glNote struct {
@@ -47,6 +61,46 @@ type fakeGitLab struct {
 	next    int
 	posts   []glNote
 	deletes []int
+	// pagination of list endpoints (20 per page): which of the legal header combinations the server sends
+	sendTotals    bool // X-Total and X-Total-Pages present (GitLab omits them for big collections)
+	nextEmptyLast bool // on the last page: "X-Next-Page:" sent empty (true) or not sent at all (false)
+	pagesServed   int
+}
+
+// glPage writes the pagination headers for a list of n items and returns the slice bounds of the requested page.
+func (f *fakeGitLab) glPage(w http.ResponseWriter, r *http.Request, n int) (int, int) {
+	const per = 20
+	page, _ := strconv.Atoi(r.URL.Query().Get("page"))
+	if page < 1 {
+		page = 1
+	}
+	pages := (n + per - 1) / per
+	if pages == 0 {
+		pages = 1
+	}
+	w.Header().Set("X-Page", strconv.Itoa(page))
+	w.Header().Set("X-Per-Page", strconv.Itoa(per))
+	if f.sendTotals {
+		w.Header().Set("X-Total", strconv.Itoa(n))
+		w.Header().Set("X-Total-Pages", strconv.Itoa(pages))
+	}
+	if page < pages {
+		w.Header().Set("X-Next-Page", strconv.Itoa(page+1))
+	} else if f.nextEmptyLast {
+		w.Header().Set("X-Next-Page", "")
+	}
+	if page > 1 {
+		w.Header().Set("X-Prev-Page", strconv.Itoa(page-1))
+	}
+	f.pagesServed++
+	lo, hi := (page-1)*per, page*per
+	if lo > n {
+		lo = n
+	}
+	if hi > n {
+		hi = n
+	}
+	return lo, hi
 }
 
 var glDiscRe = regexp.MustCompile(`^/api/v4/projects/1/merge_requests/1/discussions/([^/]+)/notes/(\d+)$`)
@@ -64,7 +118,8 @@ func (f *fakeGitLab) ServeHTTP(w http.ResponseWriter, r *http.Request) {
 		io.WriteString(w, `[{"id":1,"head_commit_sha":"head","base_commit_sha":"base","start_commit_sha":"start"}]`)
 	case r.URL.Path == "/api/v4/projects/1/merge_requests/1/diffs":
 		var out []map[string]any
-		for _, d := range f.diffs {
+		lo, hi := f.glPage(w, r, len(f.diffs))
+		for _, d := range f.diffs[lo:hi] {
 			out = append(out, map[string]any{"old_path": d[0], "new_path": d[1], "diff": d[2]})
 		}
 		if out == nil {
@@ -73,7 +128,8 @@ func (f *fakeGitLab) ServeHTTP(w http.ResponseWriter, r *http.Request) {
 		json.NewEncoder(w).Encode(out)
 	case r.URL.Path == "/api/v4/projects/1/merge_requests/1/discussions" && r.Method == http.MethodGet:
 		out := []map[string]any{}
-		for _, n := range f.notes {
+		lo, hi := f.glPage(w, r, len(f.notes))
+		for _, n := range f.notes[lo:hi] {
 			note := map[string]any{"id": n.NoteID, "system": n.System, "author": map[string]any{"id": n.AuthorID}, "body": n.Body}
 			if n.HasPos {
 				pos := map[string]any{"base_sha": "base", "start_sha": "start", "head_sha": "head", "old_path": n.OldPath, "new_path": n.NewPath, "position_type": "text"}
@@ -167,6 +223,30 @@ type fakeGitHub struct {
 	general  []string
 }
 
+// ghPage: GitHub's Link-header pagination (per_page from the request, default 30 like the real API)
+func ghPage(w http.ResponseWriter, r *http.Request, n int) (int, int) {
+	per, _ := strconv.Atoi(r.URL.Query().Get("per_page"))
+	if per < 1 || per > 100 {
+		per = 30
+	}
+	page, _ := strconv.Atoi(r.URL.Query().Get("page"))
+	if page < 1 {
+		page = 1
+	}
+	if page*per < n {
+		w.Header().Set("Link", fmt.Sprintf(`<http://%s%s?page=%d&per_page=%d>; rel="next", <http://%s%s?page=%d&per_page=%d>; rel="last"`,
+			r.Host, r.URL.Path, page+1, per, r.Host, r.URL.Path, (n+per-1)/per, per))
+	}
+	lo, hi := (page-1)*per, page*per
+	if lo > n {
+		lo = n
+	}
+	if hi > n {
+		hi = n
+	}
+	return lo, hi
+}
+
 func (f *fakeGitHub) ServeHTTP(w http.ResponseWriter, r *http.Request) {
 	f.mu.Lock()
 	defer f.mu.Unlock()
@@ -175,13 +255,21 @@ func (f *fakeGitHub) ServeHTTP(w http.ResponseWriter, r *http.Request) {
 	switch {
 	case p == "/repos/o/r/pulls/1/files":
 		out := []map[string]any{}
-		for _, fl := range f.files {
-			out = append(out, map[string]any{"filename": fl[0], "patch": fl[1]})
+		lo, hi := ghPage(w, r, len(f.files))
+		for _, fl := range f.files[lo:hi] {
+			m := map[string]any{"filename": fl[0], "status": "modified"}
+			if fl[1] != "" {
+				m["patch"] = fl[1]
+			} else {
+				m["status"] = "renamed" // pure rename / binary / too large: the API sends no patch
+			}
+			out = append(out, m)
 		}
 		json.NewEncoder(w).Encode(out)
 	case p == "/repos/o/r/pulls/1/comments" && r.Method == http.MethodGet:
 		out := []map[string]any{}
-		for _, c := range f.comments {
+		lo, hi := ghPage(w, r, len(f.comments))
+		for _, c := range f.comments[lo:hi] {
 			out = append(out, c.wire())
 		}
 		json.NewEncoder(w).Encode(out)
@@ -211,7 +299,9 @@ func (f *fakeGitHub) ServeHTTP(w http.ResponseWriter, r *http.Request) {
 		io.WriteString(w, `{"id":1}`)
 	case p == "/repos/o/r/issues/1/comments" && r.Method == http.MethodGet:
 		out := []map[string]any{}
-		for i, g := range f.general {
+		glo, ghi := ghPage(w, r, len(f.general))
+		for i, g := range f.general[glo:ghi] {
+			i += glo
 			var c struct {
 				Body string `json:"body"`
 			}
@@ -255,8 +345,12 @@ func c17ServerCase(cid int, gitlab bool, path, diff string, budget int, pend []m
 		ctor = "ServerGL"
 		extra = fmt.Sprintf(" %s %s", coqNat(nreports), c17Str(tooManyMsg))
 	}
-	return fmt.Sprintf("%s %s [{| gd_old_path := %s; gd_new_path := %s; gd_diff := %s |}] %s %s%s %s %s",
-		ctor, coqN(cid), c17Str(path), c17Str(path), c17Str(diff), coqNat(budget), coqList(ps), extra, coqList(store0), coqList(rs))
+	var ds []string
+	for _, d := range c17AllFiles(path, diff) {
+		ds = append(ds, fmt.Sprintf("{| gd_old_path := %s; gd_new_path := %s; gd_diff := %s |}", c17Str(d[0]), c17Str(d[1]), c17Str(d[2])))
+	}
+	return fmt.Sprintf("%s %s %s %s %s%s %s %s",
+		ctor, coqN(cid), coqList(ds), coqNat(budget), coqList(ps), extra, coqList(store0), coqList(rs))
 }
 
 // glRaw: EVERYTHING the fake GitLab holds, as Model.Platforms.gl_note terms (a line the API omits - 0 here - is None)
@@ -378,6 +472,41 @@ func c17Servers(r *rand.Rand, rep *runReport, cw *caseWriter, id0 int, n int) {
 			summary, pend = c17Pending(reps)
 			budget = 1
 		}
+		// files of the PR: with a patch (the main one) / WITHOUT a patch / not in the PR at all (starve above), problems on them
+		// sorted before or after the placeable ones, small budgets
+		c17SrvExtra, c17SrvExtraFirst = nil, false
+		if k == 5 || k == 6 {
+			// corpus: two problems on a renamed file (in the PR, no patch) come first, one problem on a changed file, maxComments = 2
+			diff, kind = "@@ -1,1 +1,2 @@\n ctx\n+new\n", "corpus-renamed-file-first"
+			c17SrvExtra, c17SrvExtraFirst = [][3]string{{"rules/old-name.yml", "rules/0-renamed.yml", ""}}, true
+			reps = []c17Rep{
+				{ID: 1, Name: "rules/0-renamed.yml", Target: "rules/0-renamed.yml", Reporter: "r/a", Summary: "first", First: 2, Last: 2, Sev: 1},
+				{ID: 2, Name: "rules/0-renamed.yml", Target: "rules/0-renamed.yml", Reporter: "r/a", Summary: "second", First: 5, Last: 5, Sev: 1},
+				{ID: 3, Name: path, Target: path, Reporter: "r/a", Summary: "third", First: 2, Last: 2, Sev: 1, Modified: []int{2}},
+			}
+			summary, pend = c17Pending(reps)
+			budget = 2
+		} else if k > 6 && r.Intn(3) == 0 {
+			name := pick(r, []string{"rules/0-renamed.yml", "rules/z-renamed.yml", "bin/blob.dat"})
+			c17SrvExtra, c17SrvExtraFirst = [][3]string{{"rules/old-name.yml", name, ""}}, r.Intn(2) == 0
+			nx := 1 + r.Intn(3)
+			var extra []c17Rep
+			for i := 0; i < nx; i++ {
+				c := c17GenRep(r)
+				c.Name, c.Target, c.IsDup = name, name, false
+				c.First = 1 + i*4
+				c.Last = c.First + r.Intn(2)
+				extra = append(extra, c)
+			}
+			if r.Intn(3) > 0 {
+				reps = append(extra, reps...) // the unplaceable problems come first
+			} else {
+				reps = append(reps, extra...)
+			}
+			summary, pend = c17Pending(reps)
+			budget = 1 + r.Intn(nx+1) // tight: at most one more than the number of problems on the patch-less file
+			kind += "+file-without-patch"
+		}
 		if k%2 == 0 {
 			c17GitLabScenario(r, rep, cw, id0+k, k, diff, kind, path, reps, summary, pend, budget)
 		} else {
@@ -387,8 +516,24 @@ func c17Servers(r *rand.Rand, rep *runReport, cw *caseWriter, id0 int, n int) {
 }
 
 func c17GitLabScenario(r *rand.Rand, rep *runReport, cw *caseWriter, cid int, k int, diff, kind, path string, reps []c17Rep, summary reporter.Summary, pend []memPending, budget int) {
-	f := &fakeGitLab{diffs: [][3]string{{path, path, diff}}}
+	f := &fakeGitLab{diffs: c17AllFiles(path, diff), sendTotals: r.Intn(2) == 0, nextEmptyLast: r.Intn(2) == 0}
 	sc := c17SrvScenario{Platform: "gitlab", Diff: diff, Path: path, Budget: budget, Reports: reps, Pending: pend}
+	// a long history: more than one page (20) of discussions BEFORE anything of pint's, so that pint's own comments - stale
+	// ones and the ones it creates - live on page 2, 3, ...
+	if k > 6 && r.Intn(3) == 0 || k == 8 || k == 10 {
+		if k == 8 {
+			f.sendTotals = false
+		}
+		if k == 10 {
+			f.sendTotals = true
+		}
+		nsys := 19 + r.Intn(30)
+		for i := 0; i < nsys; i++ {
+			f.notes = append(f.notes, glNote{DiscID: fmt.Sprintf("s%d", i), NoteID: 1000 + i, AuthorID: 7 + i%2, System: true, Body: fmt.Sprintf("changed the description %d", i)})
+		}
+		sc.Initial = append(sc.Initial, fmt.Sprintf("long-history:%d-system-notes", nsys))
+		rep.hist(fmt.Sprintf("gitlab:paginated-discussions totals=%v next-empty-on-last=%v", f.sendTotals, f.nextEmptyLast))
+	}
 	// initial population: a foreign comment, a system note, a general note, a stale comment of pint's
 	f.next = 100
 	f.notes = append(f.notes,
@@ -537,9 +682,31 @@ func c17GitLabScenario(r *rand.Rand, rep *runReport, cw *caseWriter, cid int, k 
 }
 
 func c17GitHubScenario(r *rand.Rand, rep *runReport, cw *caseWriter, cid int, k int, diff, kind, path string, reps []c17Rep, summary reporter.Summary, pend []memPending, budget int) {
-	f := &fakeGitHub{files: [][2]string{{path, diff}}}
+	f := &fakeGitHub{}
+	for _, d := range c17AllFiles(path, diff) {
+		f.files = append(f.files, [2]string{d[1], d[2]})
+	}
 	sc := c17SrvScenario{Platform: "github", Diff: diff, Path: path, Budget: budget, Reports: reps, Pending: pend}
 	f.next = 100
+	// failures of scenarios in the known-finding class "more review comments than one API page" are recorded as such
+	longHistory := false
+	ghFail := func(id, what string, c any) {
+		if longHistory {
+			rep.failKnown(id, what+" [the pull request has more review comments than one API page (30): GithubReporter.List only reads the first page]", c, "C17-github-lists-first-page-only")
+			return
+		}
+		rep.fail(id, what, c)
+	}
+	// a long review history: more than one page (30) of other people's review comments BEFORE anything of pint's
+	longHistory = k == 7 || (k > 8 && r.Intn(4) == 0)
+	if longHistory {
+		nold := 30 + r.Intn(12)
+		for i := 0; i < nold; i++ {
+			f.comments = append(f.comments, ghComment{ID: int64(2000 + i), Path: "docs/other.md", Line: 1 + i, Body: fmt.Sprintf("review remark %d", i)})
+		}
+		sc.Initial = append(sc.Initial, fmt.Sprintf("long-history:%d-review-comments", nold))
+		rep.hist("github:paginated-review-comments")
+	}
 	f.comments = append(f.comments, ghComment{ID: 91, Path: path, Line: 3, Body: "a human wrote this"})
 	if r.Intn(2) == 0 {
 		f.comments = append(f.comments, ghComment{ID: 92, Body: "a comment without a path"})
@@ -587,13 +754,15 @@ func c17GitHubScenario(r *rand.Rand, rep *runReport, cw *caseWriter, cid int, k 
 		f.posts = nil
 		ngen := len(f.general)
 		if err := reporter.Submit(context.Background(), summary, gh, false); err != nil {
-			rep.fail(fmt.Sprintf("srv%d", k), "GitHub: Submit failed against the fake API: "+err.Error(), sc)
+			ghFail(fmt.Sprintf("srv%d", k), "GitHub: Submit failed against the fake API: "+err.Error(), sc)
 			return
 		}
 		sc.Rounds = append(sc.Rounds, c17SrvRound{General: len(f.general) - ngen, Posts: len(f.posts), Store: len(f.comments), View: ghRaw(f.comments)})
 	}
 	sc.Store = f.comments
-	cw.add(c17ServerCase(cid, false, path, diff, budget, pend, len(reps), "", store0, sc.Rounds))
+	if !longHistory { // the model assumes List returns ALL comments; the paginated class is judged by the oracle only (known finding)
+		cw.add(c17ServerCase(cid, false, path, diff, budget, pend, len(reps), "", store0, sc.Rounds))
+	}
 	rep.count(fmt.Sprintf("%+v", sc), sc.Rounds[0].Posts > 0)
 	rep.hist("kind=github-server")
 	rep.hist("srv-diff:" + kind)
@@ -615,13 +784,13 @@ func c17GitHubScenario(r *rand.Rand, rep *runReport, cw *caseWriter, cid int, k 
 	for _, p := range pend {
 		if p.Path == path && hasDiffLines && !covered(p) {
 			what := fmt.Sprintf("GitHub: after %d runs with unchanged results and maxComments=%d a problem on %s:%d still has no comment", len(sc.Rounds), budget, p.Path, p.Line)
-			rep.fail(fmt.Sprintf("srv%d", k), what, sc)
+			ghFail(fmt.Sprintf("srv%d", k), what, sc)
 			return
 		}
 	}
 	last := sc.Rounds[len(sc.Rounds)-1]
 	if last.Posts > 0 {
-		rep.fail(fmt.Sprintf("srv%d", k), fmt.Sprintf("GitHub: run %d with unchanged results, nothing deferred, still created %d comment(s)", len(sc.Rounds), last.Posts), sc)
+		ghFail(fmt.Sprintf("srv%d", k), fmt.Sprintf("GitHub: run %d with unchanged results, nothing deferred, still created %d comment(s)", len(sc.Rounds), last.Posts), sc)
 		return
 	}
 	// ... and no other comment either: the previous run already had nothing to create, so this one must leave the pull request alone
@@ -629,12 +798,12 @@ func c17GitHubScenario(r *rand.Rand, rep *runReport, cw *caseWriter, cid int, k 
 		what := fmt.Sprintf("GitHub: run %d with unchanged results and nothing left to create still posted %d general comment(s) on the pull request (%d in total over %d runs): %.80q...",
 			len(sc.Rounds), last.General, len(f.general), len(sc.Rounds), f.general[len(f.general)-1])
 		// repaired by fix 5e3fe45 (GithubReporter looks for an identical issue comment first): any recurrence is a violation
-		rep.fail(fmt.Sprintf("srv%d", k), what, sc)
+		ghFail(fmt.Sprintf("srv%d", k), what, sc)
 		return
 	}
 	for _, c := range f.comments {
 		if c.ID == 91 && c.Body != "a human wrote this" {
-			rep.fail(fmt.Sprintf("srv%d", k), "GitHub: a foreign comment was altered", sc)
+			ghFail(fmt.Sprintf("srv%d", k), "GitHub: a foreign comment was altered", sc)
 		}
 	}
 	rep.sample(map[string]any{"kind": "github-server", "rounds": sc.Rounds, "pending": len(pend), "budget": budget})
@@ -659,22 +828,24 @@ func c17GitHubScenario(r *rand.Rand, rep *runReport, cw *caseWriter, cid int, k 
 	for q := 0; q < need+1; q++ {
 		f.posts = nil
 		if err := reporter.Submit(context.Background(), summary, gh, false); err != nil {
-			rep.fail(fmt.Sprintf("srv%d-push", k), "GitHub: Submit failed against the fake API: "+err.Error(), sc2)
+			ghFail(fmt.Sprintf("srv%d-push", k), "GitHub: Submit failed against the fake API: "+err.Error(), sc2)
 			return
 		}
 		sc2.Rounds = append(sc2.Rounds, c17SrvRound{Posts: len(f.posts), Store: len(f.comments), View: ghRaw(f.comments)})
 	}
 	sc2.Store = f.comments
-	cw.add(c17ServerCase(cid+100000, false, path, diff, budget, pend, len(reps), "", store1, sc2.Rounds))
+	if !longHistory {
+		cw.add(c17ServerCase(cid+100000, false, path, diff, budget, pend, len(reps), "", store1, sc2.Rounds))
+	}
 	rep.count(fmt.Sprintf("%+v", sc2), sc2.Rounds[0].Posts > 0)
 	rep.hist("kind=github-server-after-push")
 	for _, p := range pend {
 		if p.Path == path && !covered(p) {
-			rep.fail(fmt.Sprintf("srv%d-push", k), fmt.Sprintf("GitHub: after a push that outdated pint's comments and %d more runs with maxComments=%d the problem on %s:%d has no comment attached to its line (only outdated ones)", len(sc2.Rounds), budget, p.Path, p.Line), sc2)
+			ghFail(fmt.Sprintf("srv%d-push", k), fmt.Sprintf("GitHub: after a push that outdated pint's comments and %d more runs with maxComments=%d the problem on %s:%d has no comment attached to its line (only outdated ones)", len(sc2.Rounds), budget, p.Path, p.Line), sc2)
 			return
 		}
 	}
 	if l2 := sc2.Rounds[len(sc2.Rounds)-1]; l2.Posts > 0 {
-		rep.fail(fmt.Sprintf("srv%d-push", k), fmt.Sprintf("GitHub: run %d after the push, nothing deferred, still created %d comment(s)", len(sc2.Rounds), l2.Posts), sc2)
+		ghFail(fmt.Sprintf("srv%d-push", k), fmt.Sprintf("GitHub: run %d after the push, nothing deferred, still created %d comment(s)", len(sc2.Rounds), l2.Posts), sc2)
 	}
 }
